@@ -197,6 +197,12 @@ impl<'input> Parser<'input> {
     /// of some directives like [`@field`](https://specs.apollo.dev/join/v0.3/#@field).
     pub fn parse_type(mut self) -> SyntaxTree<Type> {
         grammar::ty::ty(&mut self);
+        // A standalone type is the whole input: anything left over is an error.
+        // (The tree root is the type node, so the extra tokens cannot be attached to it.)
+        match self.peek() {
+            None | Some(TokenKind::Eof) => {}
+            Some(_) => self.err("expected end of input after type"),
+        }
 
         let builder = Rc::try_unwrap(self.builder)
             .expect("More than one reference to builder left")
